@@ -40,7 +40,10 @@ pub struct ProcResult {
     pub combined: Option<Vec<u8>>,
     pub code: Option<i32>,
     pub signal: Option<i32>,
+    pub timed_out: bool,
 }
+
+pub const CHILD_TIMEOUT_S: u64 = 30;
 
 impl ProcResult {
     pub fn to_json(&self) -> J {
@@ -56,6 +59,7 @@ impl ProcResult {
             ),
             ("exit_code", self.code.map_or(J::Null, |c| J::I(c as i64))),
             ("signal", self.signal.map_or(J::Null, |c| J::I(c as i64))),
+            ("timed_out", J::Bool(self.timed_out)),
         ])
     }
 }
@@ -178,7 +182,25 @@ pub fn run(spec: &ProcSpec, scratch: &Scratch, tag: &str) -> Result<ProcResult, 
     } else {
         None
     };
-    let status = child.wait().map_err(|e| e.to_string())?;
+    // bounded wait: a child that runs for CHILD_TIMEOUT_S is killed and
+    // reported as timed out (programs here finish in milliseconds)
+    let started = std::time::Instant::now();
+    let mut timed_out = false;
+    let status = loop {
+        match child.try_wait().map_err(|e| e.to_string())? {
+            Some(st) => break st,
+            None => {
+                if started.elapsed().as_secs() >= CHILD_TIMEOUT_S {
+                    let _ = child.kill();
+                    timed_out = true;
+                    break child.wait().map_err(|e| e.to_string())?;
+                }
+                std::thread::sleep(std::time::Duration::from_micros(
+                    if started.elapsed().as_millis() < 20 { 200 } else { 5000 },
+                ));
+            }
+        }
+    };
     if let Some(f) = feeder {
         let _ = f.join();
     }
@@ -202,5 +224,6 @@ pub fn run(spec: &ProcSpec, scratch: &Scratch, tag: &str) -> Result<ProcResult, 
         combined,
         code: status.code(),
         signal: status.signal(),
+        timed_out,
     })
 }
